@@ -26,12 +26,13 @@ func init()            { core.Register(c19{}) }
 func (c19) ID() string { return "C19" }
 
 type c19Case struct {
-	Kind   string `json:"kind"` // "db" | "reader"
-	Word   string `json:"word"` // db: letters P C R; reader: letters per subject
-	Repeat int    `json:"repeat,omitempty"`
-	Ticker bool   `json:"ticker,omitempty"`
-	Thresh int    `json:"thresh,omitempty"`
-	Subj   string `json:"subj,omitempty"`
+	Kind   string     `json:"kind"` // "db" | "reader"
+	Word   string     `json:"word"` // db: letters P C R; reader: letters per subject
+	Repeat int        `json:"repeat,omitempty"`
+	Ticker bool       `json:"ticker,omitempty"`
+	Thresh int        `json:"thresh,omitempty"`
+	Subj   string     `json:"subj,omitempty"`
+	Sched  *schedCase `json:"sched,omitempty"`
 }
 
 func words(alpha string, maxLen int) []string {
@@ -76,7 +77,15 @@ func (c c19) Run(ctx *core.Ctx) error {
 			cases = append(cases, core.J(c19Case{Kind: "reader", Word: w, Subj: subj}))
 		}
 	}
-	ctx.Ev.Rule = "database: every word of cycles over {P = put + forced rotation + flush, C = one compaction cycle, R = Close + Open} up to length 4 repeated 5 times (20 cycles) and every word up to length 7 once, x file threshold {1,2} x compaction goroutine {disabled, enabled with a 1 h ticker}; after every cycle the /proc/self/fd and /proc/self/maps entries under the database directory must be <= 2*live tables + 4, after every Close 0 entries and 0 goroutines inside simpledb, and at the end the directory must be removable. readers: every word up to length 4 over {S = full scan drained, A = scan abandoned after one step, R = range scan drained, T = starting-at scan abandoned, G = point read} on each of 9 subjects (table reader with 3 loaders, stacked reader, RecordIO sequential/mmap reader and writer, WAL replayer and appender), then Close: 0 entries. distinct = word x subject/config; non-trivial = word length >= 2"
+	// tables written by earlier versions of the library (other close paths), each loader, words up to length 2
+	for fi := range legacyTables() {
+		for _, l := range []string{"slice", "skiplist", "disk"} {
+			for _, w := range words("SARTG", 2) {
+				cases = append(cases, core.J(c19Case{Kind: "reader", Word: w, Subj: fmt.Sprintf("legacy-%d-%s", fi, l)}))
+			}
+		}
+	}
+	ctx.Ev.Rule = "database: every word of cycles over {P = put + forced rotation + flush, C = one compaction cycle, R = Close + Open} up to length 4 repeated 5 times (20 cycles) and every word up to length 7 once, x file threshold {1,2} x compaction goroutine {disabled, enabled with a 1 h ticker}; after every cycle the /proc/self/fd and /proc/self/maps entries under the database directory must be <= 2*live tables + 4, after every Close 0 entries and 0 goroutines inside simpledb, and at the end the directory must be removable. readers: every word up to length 4 over {S = full scan drained, A = scan abandoned after one step, R = range scan drained, T = starting-at scan abandoned, G = point read} on each of 9 subjects (table reader with 3 loaders, stacked reader, RecordIO sequential/mmap reader and writer, WAL replayer and appender), and up to length 2 on every legacy fixture table x 3 loaders, then Close: 0 entries. Close against the background goroutines: see bounds. distinct = word x subject/config; non-trivial = word length >= 2"
 	ctx.Ev.Bounds["db_word_len_repeated"] = maxW
 	ctx.Ev.Bounds["db_word_len_flat"] = flat
 	rs := ctx.Pmap(cases)
@@ -86,6 +95,19 @@ func (c c19) Run(ctx *core.Ctx) error {
 			ctx.Report(core.Violation{Desc: "worker died or hung: " + r.DiedMsg, Case: cases[i]})
 		}
 	}
+	// Close against the real background goroutines: every interleaving within the preemption bound, in the
+	// scheduler-instrumented build (the compaction ticker is a harness-driven event there)
+	ctx.WorkerBin = binPath("vsched")
+	ctx.WorkerEnv = []string{"GOMAXPROCS=1"}
+	ctx.CaseTimeout = 5 * time.Minute
+	var scns []schedScenario
+	for _, s := range c19BgScenarios() {
+		if s.Bound(ctx.Tier) >= 0 {
+			scns = append(scns, s)
+		}
+	}
+	ctx.Ev.Bounds["close_vs_background_goroutines"] = "4 scenarios (tick of the compaction timer | Close, with a flush or a read before Close), every schedule within the per-scenario preemption bound; after Close: 0 descriptors/mappings below the directory, no goroutine left (a stuck one is a deadlock)"
+	runSchedCheck(ctx, scns, func(sc schedCase) json.RawMessage { return core.J(c19Case{Kind: "sched", Sched: &sc}) })
 	return nil
 }
 
@@ -141,6 +163,20 @@ func (c c19) Case(w *core.WCtx, payload json.RawMessage) core.Result {
 	quietLogs()
 	if cs.Kind == "db" {
 		return c.dbCase(w, cs)
+	}
+	if cs.Kind == "sched" {
+		scn := c05ScenarioByName(cs.Sched.Scenario)
+		if scn == nil {
+			return core.Result{Viol: []core.Violation{{Desc: "unknown scenario " + cs.Sched.Scenario}}}
+		}
+		r := schedWorker(w, scn, *cs.Sched)
+		for i := range r.Viol {
+			var sc schedCase
+			if json.Unmarshal(r.Viol[i].Case, &sc) == nil {
+				r.Viol[i].Case = core.J(c19Case{Kind: "sched", Sched: &sc})
+			}
+		}
+		return r
 	}
 	return c.readerCase(w, cs)
 }
@@ -311,6 +347,7 @@ func (c c19) readerCase(w *core.WCtx, cs c19Case) core.Result {
 	}
 	var closeFn func() error
 	var act func(ch rune) error
+	kLo, kMid, kHi := []byte("a"), []byte("b"), []byte("c")
 	tableActs := func(rd sstables.SSTableReaderI) func(ch rune) error {
 		return func(ch rune) error {
 			var it sstables.SSTableIteratorI
@@ -319,11 +356,11 @@ func (c c19) readerCase(w *core.WCtx, cs c19Case) core.Result {
 			case 'S', 'A':
 				it, err = rd.Scan()
 			case 'R':
-				it, err = rd.ScanRange([]byte("a"), []byte("c"))
+				it, err = rd.ScanRange(kLo, kHi)
 			case 'T':
-				it, err = rd.ScanStartingAt([]byte("b"))
+				it, err = rd.ScanStartingAt(kMid)
 			case 'G':
-				_, err = rd.Get([]byte("b"))
+				_, err = rd.Get(kMid)
 				return err
 			}
 			if err != nil {
@@ -338,6 +375,28 @@ func (c c19) readerCase(w *core.WCtx, cs c19Case) core.Result {
 		}
 	}
 	switch {
+	case strings.HasPrefix(cs.Subj, "legacy-"):
+		var fi int
+		var loader string
+		fmt.Sscanf(strings.Replace(cs.Subj, "-", " ", -1), "legacy %d %s", &fi, &loader)
+		fx := legacyTables()[fi]
+		tl := filepath.Join(dir, "tleg")
+		mustMkdir(tl)
+		ents, _ := os.ReadDir(fx.Dir())
+		for _, e := range ents {
+			data, err := os.ReadFile(filepath.Join(fx.Dir(), e.Name()))
+			if err != nil || os.WriteFile(filepath.Join(tl, e.Name()), data, 0o644) != nil {
+				viol("setup: cannot copy fixture file %s", e.Name())
+				return r
+			}
+		}
+		kLo, kMid, kHi = fx.KVs[0].K, fx.KVs[len(fx.KVs)/2].K, fx.KVs[len(fx.KVs)-1].K
+		rd, err := openTable(tl, tblR{Loader: loader, RBuf: 4096})
+		if err != nil {
+			viol("open: %v", err)
+			return r
+		}
+		closeFn, act = rd.Close, tableActs(rd)
 	case strings.HasPrefix(cs.Subj, "sstable-"):
 		rd, err := openTable(t1, tblR{Loader: strings.TrimPrefix(cs.Subj, "sstable-"), RBuf: 4096})
 		if err != nil {
@@ -484,6 +543,11 @@ func (c c19) readerCase(w *core.WCtx, cs c19Case) core.Result {
 	for i, ch := range cs.Word {
 		r.Trans++
 		if err := act(ch); err != nil {
+			if strings.HasPrefix(cs.Subj, "legacy-") && strings.Contains(err.Error(), "unsupported on files with version lower than v2") {
+				// the on-disk index needs SeekNext, which is documented as unsupported for the oldest record format:
+				// the call is refused, which is fine here - what was opened must still be released by Close
+				continue
+			}
 			viol("step %d (%c) failed: %v", i, ch, err)
 		}
 	}
